@@ -10,10 +10,10 @@ using geb_d = rc::GEB<2, xr::scan::all_threads, xr::abandon::when_exceeds_thresh
 using geb_e = rc::GEB<1, xr::scan::n_threads<2>, xr::abandon::never, xr::region_extension::none>;
 #define CFG(NAME, TYPE, CYC) {{NAME, false, 0, false, CYC, false}, make_world<TYPE, false>}
 const ReclHarness::Cfg cfgs[] = {
-  CFG("ebr_f0", ebr0, 16), CFG("ebr_f2", ebr2, 24), CFG("nebr_f0", nebr0, 16), CFG("nebr_f1", nebr1, 20),
-  CFG("debra_f0", debra0, 120), CFG("debra_f1", debra1, 200),
-  CFG("geb_all_always_none_f0", geb_a, 16), CFG("geb_n2_thr2_lazy_f1", geb_b, 120), CFG("geb_one_always_eager_f0", geb_c, 120),
-  CFG("geb_all_thr2_lazy_f2", geb_d, 24), CFG("geb_n2_never_none_f1", geb_e, 120),
+  CFG("ebr_f0", ebr0, 10), CFG("ebr_f2", ebr2, 18), CFG("nebr_f0", nebr0, 10), CFG("nebr_f1", nebr1, 14),
+  CFG("debra_f0", debra0, 60), CFG("debra_f1", debra1, 100),
+  CFG("geb_all_always_none_f0", geb_a, 10), CFG("geb_n2_thr2_lazy_f1", geb_b, 60), CFG("geb_one_always_eager_f0", geb_c, 60),
+  CFG("geb_all_thr2_lazy_f2", geb_d, 18), CFG("geb_n2_never_none_f1", geb_e, 60),
 };
 ReclHarness h("recl_b", cfgs, sizeof(cfgs) / sizeof(cfgs[0]));
 struct Reg { Reg() { xsim::register_harness(&h); } } reg;
